@@ -27,6 +27,7 @@ type BlueprintLookupHint[E Element] struct {
 // ensures BlueprintLookupHint implements the BlueprintStateful interface
 var _ BlueprintStateful[U32] = (*BlueprintLookupHint[U32])(nil)
 var _ BlueprintStateful[U64] = (*BlueprintLookupHint[U64])(nil)
+var _ BlueprintStatefulCloner[U64] = (*BlueprintLookupHint[U64])(nil)
 
 func (b *BlueprintLookupHint[E]) Solve(s Solver[E], inst Instruction) error {
 	nbEntries := int(inst.Calldata[1])
@@ -86,6 +87,14 @@ func (b *BlueprintLookupHint[E]) Reset() {
 
 	b.cachedEntries = make([]E, 0, capacity)
 	b.cachedOffset = 0
+}
+
+// CloneForSolve returns an instance with its own entries cache: the cached entries are
+// resolved from the witness, so every Solve needs its own.
+func (b *BlueprintLookupHint[E]) CloneForSolve() BlueprintStateful[E] {
+	c := &BlueprintLookupHint[E]{EntriesCalldata: b.EntriesCalldata}
+	c.Reset()
+	return c
 }
 
 func (b *BlueprintLookupHint[E]) CalldataSize() int {
